@@ -597,6 +597,8 @@ def split_eq(s):
 
 def gen_env_case(rng):
     keys = [b"A", b"B", b"C", b"PATH", b"", b"X_Y", K_LANE, K_BUILD] + ([K_TASK, K_CFD] if rng.random() < 0.35 else [])
+    # names that are equal up to letter case are DIFFERENT variables on POSIX
+    keys += [b"a", b"b", b"path", b"Path", b"x_y", b"http_proxy", b"HTTP_PROXY", b"Mode", b"MODE", b"mode", K_TASK.lower(), K_LANE.lower()]
     vals = [b"", b"1", b"two words", b"x=y", b"line\nbreak", b"\xff\xfe", b"/usr/bin:/bin"]
     req = [(rng.choice(keys), rng.choice(vals)) for _ in range(rng.randint(0, 5))]
     inherit = rng.random() < 0.6
@@ -608,7 +610,8 @@ def gen_env_case(rng):
         if rng.random() < 0.2: base.append(b"=lead")
         if rng.random() < 0.2: base.append(b"")
     control = rng.random() < 0.5
-    return dict(req=req, inherit=inherit, base=base, control=control, lanes=rng.randint(1, 3))
+    lanes = rng.randint(1, 3)
+    return dict(req=req, inherit=inherit, base=base, control=control, lanes=lanes, q="serial" if rng.random() < 0.25 else lanes)
 
 def run_env(chk, drv, model, ncases):
     E = drv_env()
@@ -616,6 +619,14 @@ def run_env(chk, drv, model, ncases):
     rng = chk.rng
     cases = [gen_env_case(rng) for _ in range(ncases)]
     # corpus: ids cannot be overridden (LLBUILD_TASK_ID=outer in the base environment is the witness of the repaired defect a51183e); duplicates; entries without '='
+    # letter case: lower / UPPER / Mixed, requested vs inherited in both directions and within one source; both queues
+    for q in (2, "serial"):
+        cases += [dict(req=[(b"http_proxy", b"req-lower")], inherit=True, base=[b"HTTP_PROXY=base-upper", b"Http_Proxy=base-mixed"], control=False, lanes=2, q=q),
+                  dict(req=[(b"MODE", b"req-upper")], inherit=True, base=[b"Mode=base-mixed", b"mode=base-lower", b"MODE=base-upper"], control=True, lanes=2, q=q),
+                  dict(req=[(b"Path", b"req-mixed"), (b"PATH", b"/usr/bin:/bin"), (b"path", b"req-lower")], inherit=True, base=None, control=False, lanes=2, q=q),
+                  dict(req=[], inherit=True, base=[b"abc=1", b"ABC=2", b"Abc=3", b"aBC=4", b"abc=5"], control=False, lanes=2, q=q),
+                  dict(req=[(b"abc", b"1"), (b"ABC", b"2"), (b"Abc", b"3")], inherit=False, base=[b"ABC=no"], control=True, lanes=2, q=q),
+                  dict(req=[(K_TASK.lower(), b"lower-is-mine"), (K_LANE.lower(), b"x")], inherit=True, base=[K_BUILD.lower() + b"=y", K_CFD.lower() + b"=7"], control=True, lanes=2, q=q)]
     cases += [dict(req=[(K_LANE, b"bogus"), (K_BUILD, b"bogus"), (b"A", b"req"), (b"A", b"req2")], inherit=True, base=[b"A=base", b"B=base", b"B=base2", b"NOEQ"], control=True, lanes=2),
               # nested llbuild: the outer task's ids arrive through the inherited / requested environment
               dict(req=[], inherit=True, base=[K_TASK + b"=z", K_CFD + b"=99", b"A=1"], control=True, lanes=1),
@@ -625,7 +636,10 @@ def run_env(chk, drv, model, ncases):
               dict(req=[(K_TASK, b"mine")], inherit=False, base=[b"Z=1"], control=False, lanes=1),
               dict(req=[(b"A", b"1")], inherit=False, base=None, control=False, lanes=1),
               dict(req=[], inherit=True, base=None, control=True, lanes=1)]
-    lines = [proc_line(c["lanes"], -1, c["base"], [proc_job([b"/usr/bin/env", b"-0"], inherit=c["inherit"], control=c["control"], reqenv=c["req"])]) for c in cases]
+    for c in cases:
+        if c.get("q") == "serial":
+            c["lanes"] = 1
+    lines = [proc_line(c.get("q", c["lanes"]), -1, c["base"], [proc_job([b"/usr/bin/env", b"-0"], inherit=c["inherit"], control=c["control"], reqenv=c["req"])]) for c in cases]
     rc, out, err = vlib.run_lines(drv, lines, timeout=600, env=E)
     if rc != 0 or len(out) != len(lines):
         chk.violation("env-driver-crash", "the driver crashed while launching /usr/bin/env", dict(kind="env", line=lines[min(len(out), len(lines) - 1)], stderr=err[-1500:]), found_input=True,
